@@ -940,7 +940,7 @@ func (d *dDriver) probeLocked(s *dSys, point string) {
 		if st := ps.k8s.pods[p]; !st.api {
 			continue
 		}
-		ctx, cancel := context.WithTimeout(context.WithValue(context.Background(), dRpcKey{}, 0), 1500*time.Millisecond)
+		ctx, cancel := context.WithTimeout(context.WithValue(context.Background(), dRpcKey{}, 0), 700*time.Millisecond)
 		ok, _, e, a := dDoRPC(ps.svc, ctx, "add", p, 90+p)
 		cancel()
 		adds = append(adds, vt.M{"p": p, "ok": ok, "e": e, "a": a})
@@ -1418,7 +1418,27 @@ func dRandomScenarios(fam string, n int) [][]vt.M {
 		}
 		switch fam {
 		case "c04":
-			switch i % 4 {
+			switch i % 6 {
+			case 2:
+				// the pool has to go to the cloud for the second and third pod; the caller gives up while it waits,
+				// later the same pods ask again (the addresses the cloud delivered meanwhile are idle)
+				sc[0]["conf"] = vt.M{"n1": 1, "n2": 0, "slots": 2, "cap": 2, "policy": "most_ips", "fam": fam, "probe": false}
+				sc = append(sc, dCall("add", 1, 1, "none"),
+					vt.M{"a": "call", "k": "add", "p": 2, "c": 1, "gate": "none", "us": 1000 * (1 + rng.Intn(250))},
+					vt.M{"a": "call", "k": "add", "p": 3, "c": 1, "gate": "none", "us": 1000 * (1 + rng.Intn(400))},
+					vt.M{"a": "wait", "ms": rng.Intn(400)}, dCall("add", 2, 2, "none"), dCall("add", 1, 2, "none"), dCall("del", 2, 1, "none"),
+					dCall("del", 2, 2, "none"), dCall("add", 3, 1, "none"), dCall("get", 3, 1, "none"))
+			case 3:
+				// a repeated ADD is cancelled and the pod's DEL follows at once, while the pool may still be busy with the
+				// cancelled request; another pod takes what was released
+				for k := 0; k < 20; k++ {
+					sc = append(sc, dCall("add", 1, 1, "none"),
+						vt.M{"a": "call", "k": "add", "p": 1, "c": 2, "gate": "none", "cancel": 3 + rng.Intn(9)},
+						dCall("del", 1, 1, "none"))
+					if k%4 == 3 {
+						sc = append(sc, dCall("add", 2, 1, "none"), dCall("del", 2, 1, "none"))
+					}
+				}
 			case 0:
 				// cancellation storm: a repeated ADD of a pod with an acknowledged ADD, cancelled at every touch of its
 				// context and after a few microseconds; in between another pod asks
@@ -1457,7 +1477,7 @@ func dRandomScenarios(fam string, n int) [][]vt.M {
 					case x < 17:
 						sc = append(sc, vt.M{"a": "open", "p": []int{0, p}[rng.Intn(2)]})
 					case x < 18:
-						sc = append(sc, vt.M{"a": "call", "k": "add", "p": p, "c": c, "gate": "none", "cancel": 1 + rng.Intn(16)})
+						sc = append(sc, vt.M{"a": "call", "k": []string{"add", "add", "del", "get"}[rng.Intn(4)], "p": p, "c": c, "gate": "none", "cancel": 1 + rng.Intn(16)})
 					case x < 19:
 						sc = append(sc, vt.M{"a": "gc"})
 					default:
